@@ -122,7 +122,21 @@ enum EGen<T> {
 }
 
 fn main() {
-    let path = std::env::args().skip_while(|a| a != "--out").nth(1).unwrap_or("/dev/stdout".into());
+    let argv: Vec<String> = std::env::args().collect();
+    let path = argv.iter().skip_while(|a| *a != "--out").nth(1).cloned().unwrap_or("/dev/stdout".into());
+    if argv.get(1).map(|s| s == "replay").unwrap_or(false) {
+        // re-generate every event and keep those whose type was recorded in the input
+        let inp = std::fs::read_to_string(argv.iter().skip_while(|a| *a != "--in").nth(1).expect("--in")).expect("read");
+        let want: Vec<String> = inp.lines().filter_map(|l| serde_json::from_str::<J>(l).ok()).filter_map(|e| e["ty"].as_str().map(|s| s.to_string())).collect();
+        let tmp = format!("{path}.all");
+        let st = std::process::Command::new(&argv[0]).args(["--out", &tmp]).status().expect("self");
+        assert!(st.success());
+        let all = std::fs::read_to_string(&tmp).unwrap();
+        let _ = std::fs::remove_file(&tmp);
+        let keep: Vec<&str> = all.lines().filter(|l| serde_json::from_str::<J>(l).map(|e| want.iter().any(|w| e["ty"] == w.as_str())).unwrap_or(false)).collect();
+        std::fs::write(&path, keep.join("\n") + "\n").unwrap();
+        return;
+    }
     vcommon::obs::install_panic_hook();
     let mut out = W(std::io::BufWriter::new(std::fs::File::create(path).unwrap()), 0);
     let o = &mut out;
